@@ -54,7 +54,7 @@ impl Prop for C18 {
         if rng.chance(1, 2) {
             let used: Vec<usize> = gw.world.configs[0][0].patterns.iter().map(|p| p.token_type).collect();
             let mut t = 62;
-            while used.contains(&t) {
+            while used.iter().any(|x| gen::same_type(*x, t)) {
                 t += 1;
             }
             let pat = rng
